@@ -70,6 +70,19 @@ def generate(rng, tier):
             lines += ['gb.rr %d 57328 57343' % i for i in range(3)]
             cases.append(('irq%d' % nint, lines))
             nint += 1
+    # OAM DMA on an instance that is not the most recent one, every instance with its own source data
+    ndma = 0
+    for target in (0, 1, 2):
+        lines = ['gb.newloop %d 0 0 0' % i for i in range(3)]
+        for i in range(3):
+            for j in range(0, 160, 7):
+                lines.append('gb.w %d %d %d' % (i, 0xc000 + j, (17 * i + 3 * j + 1) & 255))
+        lines += ['gb.w %d 65350 192' % target, 'gb.cyc %d 170' % target]
+        lines += ['gb.rr %d 65024 65183' % i for i in range(3)]
+        lines += ['gb.w %d 65350 192' % ((target + 1) % 3), 'gb.cyc %d 170' % ((target + 1) % 3)]
+        lines += ['gb.rr %d 65024 65183' % i for i in range(3)]
+        cases.append(('dma%d' % ndma, lines))
+        ndma += 1
     # external RAM of cartridges that declare none / some: written on one instance, read on the others
     nram = 0
     for typ, ramc in [(0x01, 0), (0x00, 0), (0x11, 0), (0x19, 0), (0x03, 2), (0x13, 3), (0x1b, 2), (0x06, 0)]:
